@@ -327,6 +327,10 @@ class Impl:
         finally:
             g.cleanup()
 
+    def clean(self, op_id: str, method: str, path: str) -> list:
+        cid = self.NS.clean_auto_generated_operation_id(op_id, method, path)
+        return [cid, self.NS.sanitize_method_name(cid)]
+
     def models(self, raw: list) -> dict:
         d = tempfile.mkdtemp(dir=self.scratch)
         try:
@@ -357,6 +361,12 @@ def oracle_call(f: int, s: str, out: str | None) -> list[str]:
             return [f"{FN[f]}({s!r}) raised: name derivation is not total"]
         if not ident_ok(out):
             return [f"{FN[f]}({s!r}) = {out!r} is not a valid non-keyword identifier"]
+    if f == 9 and s and s.isascii() and s.isalpha():
+        from pyopenapi_gen.core.utils import NameSanitizer as _NS
+        m = _NS.sanitize_module_name(s)
+        if not m.endswith("_") and out != m:
+            return [f"_to_module_name({s!r}) = {out!r} but the model file is sanitize_module_name = {m!r} "
+                    f"(letters-only, non-reserved name: the two snake-casers must agree)"]
     if f == 6 and out == "1" and not ident_ok(s):
         return [f"is_valid_python_identifier({s!r}) is True for a string that is not an identifier"]
     return []
@@ -452,6 +462,14 @@ def run_case(impl: Impl, kind: str, inp: Any) -> dict:
             lost = [inp[i] for i in range(len(inp)) if i not in held]
             if lost or not held <= set(range(len(inp))):
                 fails.append(f"component schemas: {len(inp)} declared, {len(obs)} kept; dropped or merged: {lost}")
+        return {"input": {"kind": kind, "arg": inp}, "obs": obs, "oracle_fail": fails}
+    if kind == "clean":
+        obs = impl.clean(*inp)
+        fails = []
+        if not ident_ok(obs[1]):
+            fails.append(f"method name {obs[1]!r} derived from the cleaned operation id {obs[0]!r} is not a valid identifier")
+        if not (obs[0] == inp[0] or (obs[0] and inp[0].startswith(obs[0]))):
+            fails.append(f"cleaned operation id {obs[0]!r} is neither the id nor a non-empty prefix of it")
         return {"input": {"kind": kind, "arg": inp}, "obs": obs, "oracle_fail": fails}
     if kind == "pipeline":
         obs = impl.pipeline(inp)
@@ -604,7 +622,7 @@ def _main(chk: Check, impl: Impl, replay: dict | None) -> int:
     sch_inputs = [c["input"]["arg"] for c in corpus if c["input"]["kind"] == "schemas"]
     spool = ["foo_bar", "FooBar", "fooBar", "foo-bar", "Foo", "foo", "FOO", "a_b", "a-b", "AB", "Ab", "aB", "x_y_z", "XYZ",
              "Xyz", "user_v2", "UserV2", "HTTPServer", "HttpServer", "type", "Type_", "none", "None", "$", "-", "1a", "_1a",
-             "Pet", "pet", "Pets", "A", "a", "é", "x"]
+             "Pet", "pet", "Pets", "A", "a", "é", "x", "n_o_n_e", "t_r_u_e", "i_d", "NONE"]
     for names in ([list(t) for t in itertools.product(spool[:20], repeat=2)]
                   + [[rng.choice(spool) for _ in range(rng.randint(1, 5))] for _ in range(300 * scale)]
                   + [[s] for s in spool] + [[s] for s in exhaustive(2)]):
@@ -622,6 +640,25 @@ def _main(chk: Check, impl: Impl, replay: dict | None) -> int:
         names = list(dict.fromkeys(names))
         pipe_inputs.append(names)
     pipe_cases = [run_case(impl, "pipeline", x) for x in pipe_inputs]
+
+    clean_inputs = [c["input"]["arg"] for c in corpus if c["input"]["kind"] == "clean"]
+    handlers = ["create_details", "read_items", "getUser", "list", "x", "Get_User", "read", "", "_", "é", "items", "İtem"]
+    cpaths = ["/details", "/items/{item_id}", "/api/v1/users/{user-id}/posts", "/", "", "/a.b/c-d", "/{id}", "//x//",
+              "/Items", "/users/{userId}", "/é/x", "/_/_", "/a/"]
+    cmethods = ["GET", "POST", "get", "Post", "DELETE", "PUT", "PATCH"]
+
+    def fastapi_norm(pth: str) -> str:
+        return re.sub(r"\W", "_", pth).strip("/")
+
+    for h in handlers:
+        for pth in cpaths:
+            for mth in rng.sample(cmethods, 3):
+                base = f"{h}{fastapi_norm(pth)}_{mth.lower()}"
+                for oid in {base, base.upper(), h + "_" + mth.lower(), base + "x", fastapi_norm(pth)[1:] + "_" + mth.lower()}:
+                    clean_inputs.append([oid, mth, pth])
+    for _ in range(300 * scale):
+        clean_inputs.append([rng.choice(strings), rng.choice(cmethods), rng.choice(cpaths)])
+    clean_cases = [run_case(impl, "clean", x) for x in clean_inputs]
 
     streams = [
         ("fields", field_cases, "list (str * bool) * list (str * str)", "run_fields",
@@ -647,6 +684,10 @@ def _main(chk: Check, impl: Impl, replay: dict | None) -> int:
                           lambda l: clist(f"(({cstr(m)}, {cstr(k)}), {i}%nat)" for m, k, i in l)) + ")",
          {1: "F20k", 2: "F20m"},
          "Corr.C20.run_pipeline: pipeline_models = model modules/classes written by generate_client"),
+        ("clean", clean_cases, "((str * str) * str) * (str * str)", "run_clean T",
+         lambda c: f"((({cstr(c['input']['arg'][0])}, {cstr(c['input']['arg'][1])}), {cstr(c['input']['arg'][2])}), "
+                   f"({cstr(c['obs'][0])}, {cstr(c['obs'][1])}))",
+         {}, "Corr.C20.run_clean: clean_op_id = clean_auto_generated_operation_id (and its method name)"),
         ("models", mod_cases, "list str * list (str * str)", "run_models",
          lambda c: f"({c_strs(c['input']['arg'])}, {c_pairs(c['obs'])})",
          {}, "Corr.C20.run_models: dedup_models = ModelsEmitter generation_name / final_module_stem"),
